@@ -103,6 +103,9 @@ def main(args: Any) -> int:
             rep.error(f"inconclusive: {f['file']}:{f['case']}:{f['fn']} {f['value']}")
             continue
         key = f"{f['file']}:{f['case']}:{f['fn']}: {f['kind']} of {f['value']}"
+        if f["fn"] == "close" and f["value"] == "r2" and "GeneratorExit" in f["ir"] and any(k.startswith("err_r2_") and v for k, v in f["path"]):
+            # the same generated helper in every generator class: one canonical key
+            key = f"generator close(): {f['kind']} of r2 (the builtins.GeneratorExit lookup) on the path where that lookup itself fails"
         rep.sample({k: f[k] for k in ("file", "case", "fn", "kind", "value", "where", "detail")})
 
         def replay(d: str, f: dict = f) -> tuple[bool, str]:
